@@ -138,4 +138,53 @@ theorem ldfOk_meaning (v : V3) (start : P2) (w h : Option Int) (path : List (Nat
 example : ldf ⟨2, -2, 0⟩ (2, 0) (some 3) (some 3) 2 1 1 0 =
     .ok [(0, (0, 0)), (0, (1, 0)), (5, (1, 2)), (5, (1, 1))] := by rfl
 
+/-- **Concentric hexagons.** For every radius and centre the generated list is duplicate-free,
+contains exactly the chips within hexagonal (= graph) distance `radius` of the centre, lists them
+nearest ring first, and has `1 + 3 r (r + 1)` elements. -/
+theorem hexagons_exact (radius : Nat) (c : P2) :
+    (concentricHexagons radius c).Nodup ∧
+    (∀ p, p ∈ concentricHexagons radius c ↔ hexDist c p ≤ radius) ∧
+    (concentricHexagons radius c).Pairwise (fun a b => hexDist c a ≤ hexDist c b) ∧
+    (concentricHexagons radius c).length = 1 + 3 * radius * (radius + 1) := by
+  obtain ⟨hm, hn, hp, hl⟩ := rings_spec c radius 1 c (by omega) (by ext <;> simp)
+  simp only [concentricHexagons, Int.toNat_natCast]
+  refine ⟨?_, fun p => ?_, ?_, ?_⟩
+  · rw [List.nodup_cons]
+    refine ⟨fun hc => ?_, hn⟩
+    obtain ⟨r, h1, _, h3⟩ := (hm c).1 hc
+    rw [hexDist_self] at h3; omega
+  · rw [List.mem_cons, hm]
+    constructor
+    · rintro (rfl | ⟨r, h1, h2, h3⟩)
+      · rw [hexDist_self]; omega
+      · omega
+    · intro h
+      by_cases h0 : hexDist c p = 0
+      · left; exact hexDist_eq_zero c p h0
+      · right
+        obtain ⟨r, hr⟩ := Int.eq_ofNat_of_zero_le (hexDist_nonneg c p)
+        exact ⟨r, by omega, by omega, hr⟩
+  · rw [List.pairwise_cons]
+    refine ⟨fun b _ => ?_, hp⟩
+    rw [hexDist_self]; exact hexDist_nonneg c b
+  · have h1 := sumRings_closed radius 1
+    have h2 : 3 * radius * (radius + 1) = 3 * (radius * radius) + 3 * radius := by
+      rw [Nat.mul_add, Nat.mul_assoc]; omega
+    rw [List.length_cons, hl, h2]
+    simp only [Nat.mul_one] at h1
+    omega
+
+/-- a negative radius yields just the centre (the loop body never runs) -/
+theorem hexagons_negative (radius : Int) (c : P2) (h : radius < 0) : concentricHexagons radius c = [c] := by
+  have : radius.toNat = 0 := by omega
+  simp [concentricHexagons, this, rings]
+
+/-- the hexagonal distance used above is the graph distance of the mesh -/
+theorem hexDist_is_graph_distance (c p : P2) : IsDist none none c p (hexDist c p).toNat := by
+  have := (meshLen_eq_dist ⟨c.1, c.2, 0⟩ ⟨p.1, p.2, 0⟩).2
+  rw [meshLen_eq_hexLen] at this
+  simpa [proj, hexDist] using this
+
+example : concentricHexagons 1 (0, 0) = [(0, 0), (0, -1), (1, 0), (1, 1), (0, 1), (-1, 0), (-1, -1)] := by rfl
+
 end Rig.C11
